@@ -428,12 +428,12 @@ pub fn run_typed<U: Uf>(cfg: &Cfg, report: &mut Report, exhaustive_len: usize, r
 
 pub fn run(cfg: &Cfg) -> Report {
     let mut report = Report::new(cfg);
-    let ex = cfg.tier.pick(4, 5);
-    let rn = cfg.tier.pick(3_000, 60_000);
+    let ex = cfg.tier.pick(5, 6);
+    let rn = cfg.tier.pick(12_000, 200_000);
     run_typed::<UfInt>(cfg, &mut report, ex, rn);
     run_typed::<UfUsize>(cfg, &mut report, ex, rn);
-    run_typed::<UfString>(cfg, &mut report, ex.min(4), rn / 2);
-    run_typed::<UfPair>(cfg, &mut report, ex.min(4), rn / 2);
+    run_typed::<UfString>(cfg, &mut report, ex - 1, rn / 2);
+    run_typed::<UfPair>(cfg, &mut report, ex - 1, rn / 2);
 
     report.rule = "histories of unite/find/classes/clone over 3 live instances (originals and clones interleaved) for IntPartition and Partition<usize|String|(u8,u8)>: all histories of the exhaustive length over a 16-letter operation alphabet on a 4-element universe, plus random histories of ~200 operations over 8/16/64 elements in three observation modes (full queries after each step; queries only through fresh clones; long unite-only stretches then query bursts). Non-trivial = at least one union joining two multi-element classes and at least one operation on an instance after it took part in a clone; distinct = distinct history digests".into();
     report.explanation = "every answer compared with a label-array partition per instance (quick-find); representative stability judged on the instance itself; clone independence judged in both directions".into();
